@@ -31,7 +31,7 @@ Definition winstr (i : instr) : bool :=
   | IWsAppend _ _ | IWsFlush _ | IWsAfter _ | ISvcEnd _ | ISetCwf _ | ISvcPop _ | ISvcTail _
   | IPull _ | IAddTask _ | IAcqO _ | IAcqR _ | IRelR _ | IWaitO _ | IWake _ _ | IContPre _ | IContAppend _
   | KFlushExc _ | KRelO _ | KRelR _ | KSvcTry _ | KSvcTry2 _ | KWorkerTop _ => true
-  | IFlushStart _ dc | IFlush _ dc => negb dc
+  | IFlushStart _ dc | IFlush _ dc | IFlushSend _ dc _ => negb dc
   | _ => false
   end.
 
